@@ -765,7 +765,7 @@ func c56paramCheck(s string) {
 }
 
 // VerifC56_params: parameter LISTS, which the byte-bounded harnesses above are too short for: 2..3 parameters
-// ";" key ["=" value], key = 1 symbolic byte, value = 1 symbolic byte (thorough: 1..2), every combination of
+// ";" key ["=" value], key = 1 symbolic byte, value = 1 symbolic byte (thorough: 1..2 in lists of two parameters), every combination of
 // with/without value (so a valueless parameter after a valued one, repeated keys, ...). Bytes over the reduced
 // alphabet of c56byte. Same oracle as VerifC56_param (members, values incl. the default Boolean true, order).
 func VerifC56_params() {
@@ -779,8 +779,8 @@ func VerifC56_params() {
 		if vfChoice("hasval", 2) == 1 {
 			b = append(b, '=')
 			nv := 1
-			if vfTier() > 0 {
-				nv = vfLen("nval", 1, 2)
+			if vfTier() > 0 && n == 2 {
+				nv = vfLen("nval", 1, 2) // (with 3 parameters and 2-byte values the thorough run exceeded the 2 M path cap)
 			}
 			for j := 0; j < nv; j++ {
 				v := vfU8("val")
